@@ -250,7 +250,9 @@ func canonSorted(s string) string {
 }
 
 func c12Gen(r *Rng, n int) []string {
-	newAlpha := []string{"x", "y", "x.c", "x.d", "y.z", "x.c.e", "p", "p.q", "x.", "n.m.o", "x..", "q.r...", "..", ".x"}
+	newAlpha := []string{"x", "y", "x.c", "x.d", "y.z", "x.c.e", "p", "p.q", "x.", "n.m.o", "x..", "q.r...", "..", ".x",
+		// new keys that continue another new key with a byte below '.' (they sort between a key and the keys that extend it)
+		"x-y", "x!", "x c", "p-q", "x,c", "x.c-d"}
 	var ops []string
 	for len(ops) < n {
 		cfg := jsonShape
